@@ -22,7 +22,9 @@ def run(ctx: Ctx) -> int:
         "opcode or of its field, against an independent AVM table (cross-checked on this run with pyteal: " + f"{cross.get('agree')} opcodes agree, {len(cross.get('disagree', []))} disagree); "
         "the instruction's mode equals the table's; _detect_execution_mode on 1-4 instructions with symbolic modes (first mode-specific one, mixture <=> error); contract type "
         "follows the mode; absent pragma => version 1; cost of every cost-relevant opcode for every declared version >= its introduction; cost of a block of <= 3 instructions "
-        "chosen by symbolic indices equals the sum",
+        "chosen by symbolic indices equals the sum; whole parse_teal on programs in which a solver-chosen instruction (10 snippets: mode-specific, newer opcode, newer field) stands in live code, "
+        "after `return`, in a never-called subroutine or behind `b` (x 3 live prefixes x versions 2..8): the flagged lines, the mode and the mixture message are those of the whole text - "
+        "the AVM checks every opcode, reachable or not",
         [lambda: PT._verify_version, lambda: PT._detect_execution_mode, lambda: PT.parse_teal, lambda: BasicBlock.cost.fget, lambda: I.Sha256.cost.fget, lambda: I.Ecdsa_pk_decompress.cost.fget],
         {"versions": "1..8", "block_len": "1..3"},
         ["the independent AVM table (vlib/avmspec.py); `method` (pseudo-op) and size-dependent costs (base64_decode, json_ref) are left out of the claim",
